@@ -286,16 +286,10 @@ func (b *BoundedBacktracker) SearchAtWithState(haystack []byte, at int, state *B
 		if end >= 0 {
 			return startPos, end, true
 		}
-		// O(1) reset: increment generation instead of O(n) array clear
-		// This is the key optimization that makes Search fast on large inputs
-		state.Generation++
-		// Handle overflow by resetting the array (every 256 searches)
-		if state.Generation == 0 {
-			for i := range state.Visited {
-				state.Visited[i] = 0
-			}
-			state.Generation = 1
-		}
+		// The visited table is deliberately NOT reset between start positions:
+		// a (state, pos) pair that did not lead to a match from an earlier start
+		// cannot lead to one from a later start either, and keeping the marks is
+		// what bounds the whole search by states x length (as in IsMatchWithState).
 	}
 	return -1, -1, false
 }
